@@ -109,7 +109,7 @@ def run(tier):
             "faults_fired": fault_counts,
             "probes": {k: agg.stats[k] for k in ("dumps_checked", "dir_dumps_checked", "heal_checks", "returns_checked", "stdout_checked",
                                                  "conservation_checked", "relaxed_ops", "blocked_targets", "decode_errors",
-                                                 "cli_subprocess", "dir_members")},
+                                                 "cli_subprocess", "dir_members", "inputs_crlf_or_cr", "api_refs")},
             "cells_seen_in_sequences": len(cells),
             "runs_per_hour": int(agg.evals / max(wall_s, 1e-6) * 3600),
             "seeds": {"base": base, "first": base * 1000003, "count_main_group": sum(1 for (g, s) in agg.digests if g == "A")},
@@ -125,8 +125,8 @@ def run(tier):
             "tree_fingerprint": scratch.fingerprint,
         }
         core.write_evidence(prop, tier, base, "fault_enumeration", cov, wall_s, len(report.violations),
-                            ["reference = pristine-process API result on the text decoded by the harness with the same codec (text mode)",
-                             "multi-dot input names: either first-dot or last-extension base name accepted (property is ambiguous)",
+                            ["reference = the in-memory API evaluated in a forked child from the same process state the entry point starts in, on the text decoded by the harness with the same codec (text mode, universal newlines)",
+                             "'<input base name>' = text before the first dot of the file name (as the property's anchors state); directory mode tolerates either rule for multi-dot names, which the code skips",
                              "directory mode: only single-dot .sql/.ddl/.hql/.bql members must be processed; others may be",
                              "under an injected or environmental OSError only conservation of other paths is demanded for that op"])
         print("C19 %s: %d evaluations (%d sweep cells of %d, %d distinct non-trivial), %d inconclusive, %d violations, %.1fs"
